@@ -1,5 +1,6 @@
 """C02 - Primal output is a feasible, self-consistent worst-case instance."""
 from pyvc import components, runner
+from harness import components as hc, models
 
 FUNCS = ['PEPit/point.py::Point.eval', 'PEPit/expression.py::Expression.eval', 'PEPit/constraint.py::Constraint.eval']
 
@@ -7,5 +8,15 @@ FUNCS = ['PEPit/point.py::Point.eval', 'PEPit/expression.py::Expression.eval', '
 def run(run):
     runner.load_contracts()
     components.ast_functions(run, FUNCS, run.tier, rt_quick=25, rt_thorough=150)
+    n = 33 if run.tier == 'quick' else 165
+    tasks = [('program', (name, seed, {})) for (name, seed) in models.programs(run.seed, n)]
+    tasks += [('program', (name, seed, {'dimension_reduction_heuristic': 'trace'})) for (name, seed) in models.programs(run.seed + 2, 11)]
+    hc.solve_scenarios(run, 'C02', tasks, 'rt-solve-instance',
+                       'seeded DSL programs; after each finite solve: inner products of evaluated leaf points vs PSD projection of the Gram matrix, every handle '
+                       'evaluates to the combination of its operands, every sent constraint / LMI holds, objective = smallest metric, primal <= dual (tolerance 2e-5(1+|tau|) scaled)')
     run.trust('pyvc AST engine + z3 5.1 / cvc5 1.0.3')
     run.assume('numpy 1-D arrays are mathematical vectors (abstract sort Vec with zeros / + / scalar * / dot / dim): assumed external algebra')
+
+
+def replay(rec, path):
+    return hc.replay_scenario(rec, 'C02', path)
